@@ -251,6 +251,8 @@ func (fc *FnCtx) instr(ins ssa.Instruction) {
 		for _, r := range x.Results {
 			rs = append(rs, fc.term(r))
 		}
+		fc.pendingResults = rs
+		fc.applyGhostSets("return")
 		fc.rets = append(fc.rets, retRec{reach: fc.curReach, state: fc.cur.clone(), results: rs})
 	case *ssa.Panic:
 		if fc.noPanic {
@@ -290,6 +292,9 @@ func (fc *FnCtx) instr(ins ssa.Instruction) {
 	case *ssa.Store:
 		l := fc.locOf(x.Addr)
 		fc.nilCheck(x.Addr, ins)
+		if l.kind == "field" {
+			fc.lockHeld(l.T, l.fld, l.obj, true, ins)
+		}
 		fc.storeLoc(l, fc.term(x.Val).t)
 	case *ssa.UnOp:
 		fc.unop(x)
@@ -505,6 +510,9 @@ func (fc *FnCtx) unop(x *ssa.UnOp) {
 	case token.MUL: // load
 		l := fc.locOf(x.X)
 		fc.nilCheck(x.X, x)
+		if l.kind == "field" {
+			fc.lockHeld(l.T, l.fld, l.obj, false, x)
+		}
 		t := fc.loadLoc(l, x.Type())
 		v := fc.defVal(x, t)
 		_ = v
